@@ -68,8 +68,8 @@ OPS = {
                lambda xs, ts, term, tt, p, m, d: _final(lambda v: functools.reduce(lambda a, x: a * 2 + x, v), xs, term, tt, True)),
     "reduce_seed": (lambda p, m, d: ops.reduce(lambda a, x: a * 2 + x, p),
                     lambda xs, ts, term, tt, p, m, d: _final(lambda v: functools.reduce(lambda a, x: a * 2 + x, v, p), xs, term, tt)),
-    "reduce_seed_none": (lambda p, m, d: ops.reduce(lambda a, x: (a or 0) + x, None),
-                         lambda xs, ts, term, tt, p, m, d: _final(lambda v: functools.reduce(lambda a, x: (a or 0) + x, v, None), xs, term, tt)),
+    "reduce_seed_none": (lambda p, m, d: ops.reduce(lambda a, x: (5 if a is None else a * 2) + x, None),
+                         lambda xs, ts, term, tt, p, m, d: _final(lambda v: functools.reduce(lambda a, x: (5 if a is None else a * 2) + x, v, None), xs, term, tt)),
     "count": (lambda p, m, d: ops.count(), lambda xs, ts, term, tt, p, m, d: _final(len, xs, term, tt)),
     "count_pred": (lambda p, m, d: ops.count(lambda x: x >= p),
                    lambda xs, ts, term, tt, p, m, d: _final(lambda v: len([x for x in v if x >= p]), xs, term, tt)),
@@ -193,10 +193,10 @@ def h_scan(a, inst):
             has = True
             accs.append(cur)
     elif inst["seed"] == "none":
-        op = ops.scan(lambda acc, x: (0 if acc is None else acc * 2) + x, None)
+        op = ops.scan(lambda acc, x: (5 if acc is None else acc * 2) + x, None)
         accs, cur = [], None
         for x in xs:
-            cur = (0 if cur is None else cur * 2) + x
+            cur = (5 if cur is None else cur * 2) + x
             accs.append(cur)
     else:
         op = ops.scan(lambda acc, x: acc * 2 + x, a.p)
